@@ -315,3 +315,28 @@ def path_str(walk):
 
 def spell_walk(g, walk):
     return "".join(g.nodes[n].seq if o == ">" else revcomp(g.nodes[n].seq) for n, o in walk)
+
+
+def stretch(g, rng, factor):
+    """Make every segment `factor` times longer (new random bases), keeping the contig structure:
+    rank-0 contigs stay tiled, haplotype segments keep their separated / adjacent relation."""
+    by_contig = {}
+    for n in g.nodes.values():
+        by_contig.setdefault(n.contig, []).append(n)
+    for contig, ns in by_contig.items():
+        ns.sort(key=lambda n: n.so)
+        pos = ns[0].so
+        prev_end_old = None
+        for n in ns:
+            if prev_end_old is not None and n.so > prev_end_old:
+                pos += (n.so - prev_end_old)  # keep a gap
+            prev_end_old = n.end
+            ln = n.ln * factor
+            n.seq = rand_seq(rng, ln)
+            n.so = pos
+            n.ln = ln
+            pos += ln
+    for l in g.links:
+        l[5] = [t if not t.startswith(("L1:i:", "L2:i:")) else
+                (f"L1:i:{g.nodes[l[0]].ln}" if t.startswith("L1") else f"L2:i:{g.nodes[l[2]].ln}") for t in l[5]]
+    return g
